@@ -37,6 +37,10 @@ def welfareLoop : (Option Rat) → (List Nat) → List (Nat × Rat) → ((Option
   | best, arg, [] => (best, arg)
   | best, arg, x :: xs => (if ((best).isNone || (gtOpt x.2 best)) then (welfareLoop ((some x.2)) [x.1] xs) else (if (eqOpt x.2 best) then (welfareLoop best ((arg ++ [x.1])) xs) else (welfareLoop best arg xs)))
 
+def voterLoop : (Option Rat) → (List Nat) → List (Nat × Rat) → ((Option Rat) × (List Nat))
+  | best, arg, [] => (best, arg)
+  | best, arg, x :: xs => (if ((best).isNone || (gtOpt x.2 best)) then (voterLoop ((some x.2)) [x.1] xs) else (if (eqOpt x.2 best) then (voterLoop best ((arg ++ [x.1])) xs) else (voterLoop best arg xs)))
+
 def welfareImproves (first : Bool) (welfare best : Rat) : Bool := (first || (decide (welfare > best)))
 
 def welfareTies (welfare best : Rat) : Bool := (decide (welfare = best))
